@@ -64,6 +64,8 @@ struct Cx<'tcx> {
     adt_seen: BTreeSet<String>,
     inst_seen: BTreeSet<String>,
     inst_queue: VecDeque<Instance<'tcx>>,
+    /// default bodies of overridden iterator-trait methods, under their own key (`...{default}`)
+    default_queue: VecDeque<(String, Instance<'tcx>)>,
     instances: BTreeMap<String, J>,
 }
 
@@ -87,6 +89,7 @@ impl<'tcx> Cx<'tcx> {
             adt_seen: BTreeSet::new(),
             inst_seen: BTreeSet::new(),
             inst_queue: VecDeque::new(),
+            default_queue: VecDeque::new(),
             instances: BTreeMap::new(),
         }
     }
@@ -276,6 +279,15 @@ impl<'tcx> Cx<'tcx> {
             if let Some(j) = self.const_value(val, cty, 0) {
                 return j;
             }
+            if let Some(j) = self.const_ref(val, cty) {
+                return j;
+            }
+            if let Ok(p) = std::env::var("MIRDUMP_DEBUG") {
+                use std::io::Write;
+                if let Ok(mut f) = std::fs::OpenOptions::new().create(true).append(true).open(p) {
+                    let _ = writeln!(f, "unhandled constant {:?} : {:?} = {:?}", c.const_, cty, val);
+                }
+            }
         }
         obj(vec![("k", s("unknown")), ("dbg", s(format!("{:?}", c.const_))), ("ty", tyj)])
     }
@@ -327,6 +339,79 @@ impl<'tcx> Cx<'tcx> {
         ]))
     }
 
+    /// A constant of reference type (`&[T; N]`, `&[T]`, `&Struct`: a named `const`/`static` table used by reference):
+    /// the pointee is read from its allocation and destructured like an aggregate constant.
+    fn const_ref(&mut self, val: ConstValue, ty: Ty<'tcx>) -> Option<J> {
+        use rustc_middle::mir::interpret::{GlobalAlloc, Scalar};
+        let tcx = self.tcx;
+        let pointee = match ty.kind() {
+            ty::TyKind::Ref(_, inner, _) => *inner,
+            _ => return None,
+        };
+        let slice_elem = match pointee.kind() {
+            ty::TyKind::Slice(e) => Some(*e),
+            _ => None,
+        };
+        // memory that can be read now and for ever: constant allocations and immutable, Freeze statics
+        let readable = |alloc_id: rustc_middle::mir::interpret::AllocId| -> Option<rustc_middle::mir::interpret::AllocId> {
+            match tcx.try_get_global_alloc(alloc_id)? {
+                GlobalAlloc::Memory(_) => Some(alloc_id),
+                GlobalAlloc::Static(did) => {
+                    if tcx.is_mutable_static(did) || !pointee.is_freeze(tcx, self.env) {
+                        return None;
+                    }
+                    let alloc = tcx.eval_static_initializer(did).ok()?;
+                    Some(tcx.reserve_and_set_memory_alloc(alloc))
+                }
+                _ => None,
+            }
+        };
+        let (inner_val, inner_ty) = match val {
+            ConstValue::Scalar(Scalar::Ptr(ptr, _)) if slice_elem.is_none() => {
+                let (prov, offset) = ptr.into_raw_parts();
+                (ConstValue::Indirect { alloc_id: readable(prov.alloc_id())?, offset }, pointee)
+            }
+            ConstValue::Slice { alloc_id, meta } => {
+                (ConstValue::Indirect { alloc_id: readable(alloc_id)?, offset: rustc_abi::Size::ZERO }, Ty::new_array(tcx, slice_elem?, meta))
+            }
+            ConstValue::Indirect { alloc_id, offset } => {
+                // the reference itself is stored in memory: read the (possibly wide) pointer out of the allocation
+                let alloc = match tcx.try_get_global_alloc(alloc_id)? {
+                    GlobalAlloc::Memory(a) => a,
+                    _ => return None,
+                };
+                let a = alloc.inner();
+                let psize = tcx.data_layout.pointer_size();
+                let rd = |at: rustc_abi::Size| -> Option<u64> {
+                    let r = at.bytes_usize()..(at + psize).bytes_usize();
+                    let b = a.inspect_with_uninit_and_ptr_outside_interpreter(r);
+                    if b.len() != 8 {
+                        return None;
+                    }
+                    let mut x = [0u8; 8];
+                    x.copy_from_slice(b);
+                    Some(match tcx.data_layout.endian {
+                        rustc_abi::Endian::Little => u64::from_le_bytes(x),
+                        rustc_abi::Endian::Big => u64::from_be_bytes(x),
+                    })
+                };
+                let prov = *a.provenance().ptrs().get(&offset)?;
+                let addr = rd(offset)?;
+                let target = readable(prov.alloc_id())?;
+                let inner_ty = match slice_elem {
+                    Some(e) => Ty::new_array(tcx, e, rd(offset + psize)?),
+                    None => pointee,
+                };
+                (ConstValue::Indirect { alloc_id: target, offset: rustc_abi::Size::from_bytes(addr) }, inner_ty)
+            }
+            _ => return None,
+        };
+        let is_agg = matches!(inner_ty.kind(), ty::TyKind::Adt(..) | ty::TyKind::Tuple(..) | ty::TyKind::Array(..));
+        let inner = if is_agg { self.const_value_agg(inner_val, inner_ty).or_else(|| self.const_value(inner_val, inner_ty, 1)) } else { self.const_value(inner_val, inner_ty, 1) }?;
+        let tyj = self.ty(ty);
+        Some(obj(vec![("k", s("ref")), ("to", inner), ("slice", J::Bool(slice_elem.is_some())), ("ty", tyj)]))
+    }
+
     /// Aggregate-typed constants are always destructured (even when they fit in a scalar).
     fn const_value_agg(&mut self, val: ConstValue, ty: Ty<'tcx>) -> Option<J> {
         let tcx = self.tcx;
@@ -368,7 +453,25 @@ impl<'tcx> Cx<'tcx> {
                 };
                 let rpath = tcx.def_path_str(inst.def_id());
                 let key = if has_mir { self.enqueue(inst) } else { self.inst_key(inst) };
+                // A provided method of one of core's iterator traits that the receiver's type overrides: also emit the
+                // trait's default body for the same type arguments.  It is written in terms of `next()` / `next_back()`,
+                // so an iterator the analyser models only needs a model of those.
+                let mut default_key = J::Null;
+                if inst.def_id() != def {
+                    if let Some(tr) = tcx.trait_of_assoc(def) {
+                        let tp = tcx.def_path_str(tr);
+                        if tp.starts_with("core::iter::") && tcx.defaultness(def).has_value() && tcx.is_mir_available(def) {
+                            let dinst = Instance::new_raw(def, args);
+                            let k = format!("{}{{default}}", self.inst_key(dinst));
+                            if self.inst_seen.insert(k.clone()) {
+                                self.default_queue.push_back((k.clone(), dinst));
+                            }
+                            default_key = s(k);
+                        }
+                    }
+                }
                 obj(vec![
+                    ("default_key", default_key),
                     ("key", s(key)),
                     ("path", s(rpath)),
                     ("decl_path", s(path)),
@@ -513,10 +616,16 @@ impl<'tcx> Cx<'tcx> {
                         ("variant", n(variant.as_u32())),
                         ("union_field", active.map(|f| n(f.as_u32())).unwrap_or(J::Null)),
                     ]),
-                    AggregateKind::Closure(def, _) => obj(vec![
-                        ("k", s("closure")),
-                        ("path", s(tcx.def_path_str(*def))),
-                    ]),
+                    AggregateKind::Closure(def, cargs) => {
+                        // the bodies are monomorphic, so this names the closure's own instance; it is enqueued so that
+                        // a closure reached only through a trait object still has its MIR in the fact file
+                        let key = self.enqueue(Instance::new_raw(*def, cargs));
+                        obj(vec![
+                            ("k", s("closure")),
+                            ("path", s(tcx.def_path_str(*def))),
+                            ("key", s(key)),
+                        ])
+                    }
                     other => obj(vec![("k", s("other")), ("dbg", s(format!("{:?}", other)))]),
                 };
                 vec![("k", s("aggregate")), ("ak", ak), ("ops", J::Arr(opsj))]
@@ -889,11 +998,19 @@ impl<'tcx> Cx<'tcx> {
         }
 
         // worklist
-        while let Some(inst) = self.inst_queue.pop_front() {
-            let key = self.inst_key(inst);
-            let j = self.instance(inst);
-            self.instances.insert(key, j);
-            self.drain_adts();
+        loop {
+            if let Some(inst) = self.inst_queue.pop_front() {
+                let key = self.inst_key(inst);
+                let j = self.instance(inst);
+                self.instances.insert(key, j);
+                self.drain_adts();
+            } else if let Some((key, inst)) = self.default_queue.pop_front() {
+                let j = self.instance(inst);
+                self.instances.insert(key, j);
+                self.drain_adts();
+            } else {
+                break;
+            }
         }
         self.drain_adts();
 
